@@ -194,8 +194,12 @@ class ScoreStubs:
     replaced by stubs that return copies of the recorded solutions (same structures / alleles / diplotypes) scored by `rng`; the
     selection logic between the stages (genotype.py, estimate_minor's carry-over) runs for real on them.  Use around a StageRecorder."""
 
-    def __init__(self, rec, rng, cn_scores=(0.0, 0.0, 0.1, 0.35, 0.7, 1.2), raw=(0.0, 0.0, 0.3, 0.5, 0.9, 1.0, 1.4, 2.2)):
+    def __init__(self, rec, rng, cn_scores=(0.0, 0.0, 0.1, 0.35, 0.7, 1.2), raw=(0.0, 0.0, 0.3, 0.5, 0.9, 1.0, 1.4, 2.2), designed=False):
         self.rec, self.rng, self.cn_scores, self.raw = rec, rng, cn_scores, raw
+        # designed assignment: structure scores increase with the structure's index, every major scores 0, and the refinements of
+        # the WORST structure get the smallest raw score: the candidate that is best before the structure scores are folded in is not
+        # the best afterwards (what a selection relying on the order or the scores of an earlier stage gets wrong)
+        self.designed = designed
 
     def __enter__(self):
         import aldy.cn, aldy.major, aldy.minor
@@ -208,20 +212,34 @@ class ScoreStubs:
         majors_of = {ckey(c): sols for c, sols, raws in rec.major_calls}
         minors_of = {mkey(m): sols for m, sols, raws in rec.solve_calls}
 
+        designed = self.designed         # False, or the gap g > 0 of the run the assignment is designed for
+        self.n_first = 0
+
         def estimate_cn(gene, *a, **k):
-            out = [CNSolution(gene, rng.choice(self.cn_scores), [x for x, v in c.solution.items() for _ in range(v)]) for c in rec.cn]
+            # designed: structure 0 scores 0, structure 1 scores g (still inside the gap), every other one is far outside
+            ladder = lambda i: 0.0 if i == 0 else (float(designed) if i == 1 else float(designed) + 5.0)
+            out = [CNSolution(gene, (ladder(i) if designed else rng.choice(self.cn_scores)), [x for x, v in c.solution.items() for _ in range(v)])
+                   for i, c in enumerate(rec.cn)]
             self.keep = list(out)
+            self.second = out[1] if len(out) > 1 else None
             return out
 
         def estimate_major(gene, coverage, cn_sol, *a, **k):
-            out = [MajorSolution(rng.choice(self.raw), m.solution, cn_sol, list(m.added)) for m in majors_of.get(ckey(cn_sol), [])]
+            out = [MajorSolution((0.0 if designed else rng.choice(self.raw)), m.solution, cn_sol, list(m.added)) for m in majors_of.get(ckey(cn_sol), [])]
             self.keep += out
             return out
 
         def solve_minor_model(gene, coverage, major_sol, *a, **k):
             out = []
             for s_ in minors_of.get(mkey(major_sol), []):
-                n = MinorSolution(rng.choice(self.raw), s_.solution, major_sol)
+                sc = rng.choice(self.raw)
+                if designed:
+                    # (needs g > 1.1)  refinements of structure 1 score 0: carried g, rescaled with SLACK = 1: g(1+g); refinements of
+                    # structure 0 score (g + g^2)/2: larger than g, so structure 1's refinement is the best BEFORE the structure scores are
+                    # folded in, and more than g below g(1+g), so that refinement is outside the gap of the true best afterwards
+                    g = float(designed)
+                    sc = 0.0 if (self.second is not None and ckey(major_sol.cn_solution) == ckey(self.second)) else (g + g * g) / 2
+                n = MinorSolution(sc, s_.solution, major_sol)
                 n.set_diplotype(s_.get_diplotype())
                 out.append(n)
             self.keep += out
